@@ -51,6 +51,7 @@ type Ctx struct {
 	rule   *Rule
 	obs    []Obligation
 	emMemo []*Emission
+	mapUpd map[ssa.Value][]*ssa.MapUpdate
 }
 
 func (c *Ctx) add(v Verdict, fn, construct, pos, why string, path ...string) {
